@@ -312,8 +312,8 @@ def run(rep, tier, seed):
     from harness import lang as _lang, pipeline as _pipe
     htmp = tempfile.mkdtemp(prefix="c04h_")
     try:
-        gms = [m for m in _lang.corpus() if m.kind == "DAE"] + [_lang.Gen(rng, kind="DAE").model() for _ in range(4 if tier == "quick" else 40)]
-        hf, nh = _pipe.regen_histories(gms, rng, htmp, "c04h", what=("M",), with_module=(tier != "quick"))
+        gms = [m for m in _lang.corpus() if m.kind == "DAE"] + [_lang.Gen(rng, kind="DAE").model() for _ in range(2 if tier == "quick" else 40)]
+        hf, nh = _pipe.regen_histories(gms, rng, htmp, "c04h", what=("M",), with_module=True)
     finally:
         shutil.rmtree(htmp, ignore_errors=True)
         if htmp in sys.path:
